@@ -111,6 +111,27 @@ def run_watch(prog, acc, api, kind):
         acc.count('executions_watched')
 
 
+def include_log_check(text_a, text_b, acc, api):
+    """Two structured scripts included by CONSECUTIVE include lines (one include statement) in debug mode: the static analysis the run
+    logs for them names no label at all - every parse numbers its generated labels for its own scopes."""
+    bare_script, _ = api
+    files = {'a.bare': text_a, 'b.bare': text_b}
+    for main in ("include 'a.bare'\ninclude 'b.bare'", "include 'a.bare'\ninclude 'b.bare'\ninclude 'a.bare'", "include 'b.bare'\nzz = 1\ninclude 'a.bare'"):
+        logs = []
+        try:
+            bare_script.execute_script(bare_script.parse_script(main), {'globals': {'nx': gen_prog.make_nx([1, 0, 1, 1, 0, 0, 1, 0])}, 'maxStatements': 5000, 'logFn': logs.append,
+                                                                         'debug': True, 'fetchFn': lambda req: files.get(req['url'])})
+        except Exception as exc:  # pylint: disable=broad-except
+            if 'Unknown jump label' in str(exc):
+                acc.violation('unknown-jump-label-at-run-time', f'{exc}\n{main}\n--- a.bare\n{text_a}\n--- b.bare\n{text_b}', {'text': text_a, 'text_b': text_b, 'main': main})
+                return
+        acc.count('debug_include_logs_inspected')
+        bad = [l for l in logs if 'label' in l.lower() and l.startswith('BareScript:')]
+        if bad:
+            acc.violation('label-lint-warning', f'include log of {main!r}: {bad[:4]}\n--- a.bare\n{text_a}\n--- b.bare\n{text_b}', {'text': text_a, 'text_b': text_b, 'main': main})
+            return
+
+
 def three_functions(chain):
     a = gen_prog.build_shape(chain, 'function')
     f1 = a[0]
@@ -162,6 +183,8 @@ def run_shard(spec, acc):
             check_text('\n'.join(pp(pa + fb + pa)), acc, api, con, True, 'function-after-construct')
             inner = ['func', 'fq', [], False, pa + pb]
             check_text('\n'.join(pp([inner] + pb)), acc, api, con, True, 'siblings-in-function')
+            if ix % 3 == 0:
+                include_log_check('\n'.join(pp(pa)), '\n'.join(pp(pb)), acc, api)
         base = spec['seed'] * 1000003 + spec['shard'] * 7919 + 37
         for i in range(spec['n_random']):
             rnd = random.Random(base + i)
@@ -178,5 +201,9 @@ def run_shard(spec, acc):
 def replay(spec, acc):
     if 'text' not in spec['case']:
         acc.note_inconclusive('finding-level replay entry')
+        return
+    if 'text_b' in spec['case']:
+        acc.case((spec['case']['text'], spec['case']['text_b']), True)
+        include_log_check(spec['case']['text'], spec['case']['text_b'], acc, _api())
         return
     check_text(spec['case']['text'], acc, _api(), Contracts().install({'parse_script'}), True, 'replay')
